@@ -24,6 +24,14 @@ import time
 import traceback
 
 
+_PID_TMP = __import__("re").compile(r"\.\d+\.tmp$")
+
+
+def _norm(rel: str) -> str:
+    """temporary files carry the writer's pid in their name; normalise it so that equal states compare equal"""
+    return _PID_TMP.sub(".PID.tmp", rel)
+
+
 def folder_digest(folder: str) -> dict:
     d = {}
     if not os.path.isdir(folder):
@@ -34,10 +42,15 @@ def folder_digest(folder: str) -> dict:
         for f in files:
             p = os.path.join(root, f)
             try:
+                rel = _norm(os.path.relpath(p, folder))
+                if rel.endswith(".PID.tmp"):
+                    d[rel] = "tmp"  # an unfinished temporary file: never read by anything, content irrelevant
+                    continue
                 with io.open(p, "rb") as fh:
-                    d[os.path.relpath(p, folder)] = hashlib.sha256(fh.read()).hexdigest()[:16]
+                    data = fh.read().replace(os.path.abspath(folder).encode(), b"<RUN_FOLDER>")
+                d[rel] = hashlib.sha256(data).hexdigest()[:16]
             except OSError:
-                d[os.path.relpath(p, folder)] = "unreadable"
+                d[_norm(os.path.relpath(p, folder))] = "unreadable"
     return d
 
 
